@@ -67,10 +67,6 @@ def _dataclass_parameters(class_: Class) -> list[Parameter]:
     # Fetch `@dataclass` arguments if any.
     dec_args = _dataclass_arguments(class_.decorators)
 
-    # Parameters not added to `__init__`, return empty list.
-    if dec_args.get("init") == "False":
-        return []
-
     # All parameters marked as keyword-only.
     kw_only = dec_args.get("kw_only") == "True"
 
@@ -179,6 +175,13 @@ def _set_dataclass_init(class_: Class) -> None:
 
     # Add current class parameters.
     parameters.extend(_dataclass_parameters(class_))
+
+    # `@dataclass(init=False)`: no `__init__` method is generated for this class
+    # (its fields are still inherited by the `__init__` methods of subclasses).
+    # The class' own parameters are computed (and cached) above in any case:
+    # its `InitVar` members are about to be deleted and subclasses need them.
+    if _dataclass_arguments(class_.decorators).get("init") == "False":
+        return
 
     # Create `__init__` method with re-ordered parameters.
     init = Function(
